@@ -30,7 +30,7 @@ while read -r SRC PID NAME CRATE OTHERS; do
   echo "suite with change  : $suite"
   results=""
   for p in $PID $OTHERS; do
-    out=$(unshare -m bash -c "mount --bind $L/repo /repo && mount --bind $L/verif /verif && cd /verif && bin/check $p 2>&1 | tail -3")
+    out=$(unshare -m bash -c "mount --bind $L/repo /repo && mount --bind $L/verif /verif && cd /verif && bin/check $p 2>&1 | grep -E '^(VIOLATION|KNOWN-FINDING|C[0-9][0-9]:)' | tail -4")
     v=$(echo "$out" | grep -c "^VIOLATION")
     echo "--- bin/check $p: violation_lines=$v"
     echo "$out" | cut -c1-600
